@@ -451,3 +451,88 @@ def persistent_findings(repo: Repo, todo: List[Func]):
                     fine.append("@%s on a function of its arguments" % t)
         out_.append((h, bad, fine))
     return out_
+
+
+# ----------------------------------------------------------------------------------------------------------------
+# one-shot iterators consumed inside a loop that does not create them
+
+_ONE_SHOT = {"filter", "map", "zip", "iter", "reversed", "enumerate"}
+_NON_CONSUMING = {"isinstance", "print", "type", "id", "callable"}
+
+
+def reused_iterator_sites(fn: ast.AST):
+    """[(binding, use, loop)]: a name bound exactly once in the function to a one-shot iterator (filter / map / zip / iter /
+    reversed / enumerate call, or a generator expression), outside the loop, and consumed inside the loop's body (iterated,
+    passed to a call, tested with `in`, advanced with next): from the second iteration on the loop sees what the first
+    left - usually nothing."""
+    import ast as _a
+    from .cfg import walk_no_nested, parents_map, ancestors
+    binds = {}
+    for s in walk_no_nested(fn):
+        for n in _a.walk(s) if isinstance(s, (_a.Assign, _a.AugAssign, _a.AnnAssign, _a.For, _a.With, _a.NamedExpr)) else ():
+            if isinstance(n, _a.Name) and isinstance(n.ctx, _a.Store):
+                binds.setdefault(n.id, []).append(s)
+    args = {a.arg for a in fn.args.args + fn.args.kwonlyargs} if hasattr(fn, "args") else set()
+    pm = parents_map(fn)
+    out = []
+    for name, bs in binds.items():
+        if len(bs) != 1 or name in args:
+            continue
+        b = bs[0]
+        if not (isinstance(b, _a.Assign) and len(b.targets) == 1 and isinstance(b.targets[0], _a.Name)):
+            continue
+        v = b.value
+        one_shot = isinstance(v, _a.GeneratorExp) or (isinstance(v, _a.Call) and isinstance(v.func, _a.Name) and v.func.id in _ONE_SHOT)
+        if not one_shot:
+            continue
+        b_loops = [a for a in ancestors(b, pm) if isinstance(a, (_a.For, _a.While))]
+        for n in _a.walk(fn):
+            if not (isinstance(n, _a.Name) and n.id == name and isinstance(n.ctx, _a.Load)):
+                continue
+            par = pm.get(id(n))
+            consuming = False
+            if isinstance(par, (_a.For, _a.comprehension)) and par.iter is n:
+                consuming = True
+            elif isinstance(par, _a.Call) and n in par.args and not (isinstance(par.func, _a.Name) and par.func.id in _NON_CONSUMING):
+                consuming = True
+            elif isinstance(par, _a.Compare) and n in par.comparators and any(isinstance(o, (_a.In, _a.NotIn)) for o in par.ops):
+                consuming = True
+            elif isinstance(par, _a.Starred):
+                consuming = True
+            if not consuming:
+                continue
+            loops = [a for a in ancestors(n, pm) if isinstance(a, (_a.For, _a.While)) and a not in b_loops
+                     and not (isinstance(a, _a.For) and a.iter is n)]
+            # a comprehension around the use with its own outer `for` is a loop as well
+            comp = [a for a in ancestors(n, pm) if isinstance(a, (_a.ListComp, _a.SetComp, _a.DictComp, _a.GeneratorExp))
+                    and not any(g.iter is n for g in a.generators[:1])]
+            if loops:
+                # an unconditional break right after the use leaves a single iteration: not reported
+                lp = loops[0]
+                last = lp.body[-1] if lp.body else None
+                if isinstance(last, _a.Break):
+                    continue
+                out.append((b, n, lp))
+            elif comp and any(g.iter is not n for g in comp[0].generators[:1]):
+                out.append((b, n, comp[0]))
+    return out
+
+
+def reused_iterators(ctx, rule: str, funcs, what: str):
+    from .fixtures import check_fixture
+    from .core import norm
+    check_fixture(ctx, rule, "oneshot.py", lambda repo: sum(len(reused_iterator_sites(f_.node)) for f_ in repo.funcs.values()), expect_exact=3)
+    n = 0
+    for f in funcs:
+        ctx.seen(f)
+        hits = reused_iterator_sites(f.node)
+        for b, use, lp in hits:
+            n += 1
+            ctx.ob(rule, f, b, False,
+                   "%s gives every iteration the same candidates -- `%s` is a one-shot iterator created once (line %d) and consumed "
+                   "inside the loop at line %d: after the first pass it is exhausted (or advanced), so later iterations see fewer "
+                   "candidates and the outcome depends on the order of the loop" % (what, norm(b)[:70], b.lineno, use.lineno), node=b)
+        if not hits:
+            ctx.ob(rule, f, "one-shot iterators", True, "no one-shot iterator (filter/map/zip/iter/generator expression) created outside "
+                   "a loop is consumed inside it", node=f.node)
+    return n
